@@ -25,6 +25,7 @@ func (ex *Exec) callBuiltin(name string, args []Val, c *ssa.CallCommon) Val {
 			if x == nil {
 				return goInt(0)
 			}
+			ex.logAccess(x, false)
 			return goInt(len(x.K))
 		case Struct:
 			return goInt(len(x))
